@@ -308,8 +308,12 @@ class ExprMixin:
             acc = z3.And(acc, t) if is_and else z3.Or(acc, t)
         if allbool:
             return VBool(acc)
-        # value-returning and/or (not used by contracted code with non-bool operands)
-        raise Unsupported('and/or over non-boolean operands')
+        # value-returning and/or:  a or b  ==  a if truthy(a) else b ;  a and b  ==  b if truthy(a) else a
+        out = vals[-1]
+        for v in reversed(vals[:-1]):
+            t = self.truth(v)
+            out = self.merge([(t, v), (z3.Not(t), out)] if not is_and else [(z3.Not(t), v), (t, out)])
+        return out
 
     def e_IfExp(self, e):
         c = self.truth(self.eval(e.test))
